@@ -142,6 +142,11 @@ func VerifH_C17_set() {
 			ok, err := orig.Get(vCtx, "other"+is, &tmp)
 			symAssert(err == nil && !ok, "clone-is-independent")
 		}
+		if symParam("commits", 1) == 1 && symChoice("commit-now", 2) == 1 {
+			// what has been done so far becomes a version of its own
+			_, err := db.Commit(vCtx)
+			symAssert(err == nil, "commit-ok")
+		}
 		var got string
 		ok, err := db.Get(vCtx, "k", &got)
 		symAssert(err == nil, "get-ok")
@@ -164,6 +169,9 @@ func VerifH_C17_set() {
 	if ok {
 		symAssert(got == ref.val, "reopen-value-agrees")
 	}
+	rts, err := r.IsTombstoned(vCtx, "k")
+	symAssert(err == nil, "reopen-istombstoned-ok")
+	symAssert(rts == ref.tomb, "reopen-agrees-on-tombstone")
 	symReach("end")
 }
 
@@ -197,6 +205,8 @@ func VerifH_C17_merge() {
 		if w == 0 {
 			// a tombstone on a key nobody ever set
 			symAssert(h.Tombstone(vCtx, time.Unix(0, ts[w]), "never-set") == nil, "tombstone-ok")
+			// and one that sorts before "k"
+			symAssert(h.Tombstone(vCtx, time.Unix(0, ts[w]), "a-never-set") == nil, "tombstone-ok")
 		}
 		if tomb[w] {
 			symAssert(h.Tombstone(vCtx, time.Unix(0, ts[w]), "k") == nil, "tombstone-ok")
@@ -243,6 +253,10 @@ func VerifH_C17_merge() {
 	symAssert(cur.Min(vCtx) == nil, "cursor-min-ok")
 	ck, cv, found := cur.Get()
 	symAssert(found, "cursor-finds-entry")
+	symAssert(ck.(string) == "a-never-set" && cv.Tombstoned(), "cursor-in-key-order")
+	symAssert(cur.Forward(vCtx) == nil, "cursor-forward-ok")
+	ck, cv, found = cur.Get()
+	symAssert(found, "cursor-finds-entry")
 	symAssert(ck.(string) == "k", "cursor-in-key-order")
 	symAssert(cv.Tombstoned() == ref.tomb, "cursor-agrees-on-tombstone")
 	// Diff between the merged view and the base version reports the key exactly
@@ -267,6 +281,21 @@ func VerifH_C17_merge() {
 	}
 	symAssert(sawK == kChanged, "diff-reports-key-iff-visible-value-differs")
 	symAssert(!sawOther, "diff-ignores-tombstone-of-never-set-key")
+	// a tombstone that only one writer had survives the merge: the key stays
+	// absent whatever is set on it later, until tombstones are purged
+	for _, nk := range []string{"a-never-set", "never-set"} {
+		nts, err := m.IsTombstoned(vCtx, nk)
+		symAssert(err == nil, "istombstoned-ok")
+		symAssert(nts, "tombstone-of-one-writer-survives-the-merge")
+		tl := symInt64("tlater")
+		symAssume(tl > 0)
+		symAssume(tl < 1<<62)
+		symAssert(m.Set(vCtx, time.Unix(0, tl), nk, "late") == nil, "set-ok")
+		var tmp string
+		vis, err := m.Get(vCtx, nk, &tmp)
+		symAssert(err == nil, "get-ok")
+		symAssert(!vis, "tombstone-beats-every-later-value")
+	}
 	// TraceHistory
 	var last int64 = 1 << 62
 	first := true
